@@ -250,6 +250,49 @@ def run(ctx: Ctx) -> None:
            msg="the #include rule matches to the end of the line, comment included, and the handler does not strip it: '#include <a.h> // c' reports the file name '<a.h> // c'",
            node=lm.rule("t_INCLUDE_DIRECTIVE").node, mod=lex)
 
+    # the blanks the include rule admits between '#' and 'include' are removed by the handler before it splits the
+    # directive at the first blank: its compressing pattern must cover every character the rule admits there
+    import re._parser as _rp  # type: ignore[import]
+
+    def blanks_after_hash(pattern: str) -> Optional[Set[str]]:
+        try:
+            items = list(_rp.parse(pattern))
+        except Exception:
+            return None
+        items = [it for it in items if str(it[0]) != "AT"]
+        if not items or str(items[0][0]) != "LITERAL" or chr(items[0][1]) != "#" or len(items) < 2:
+            return None
+        op, arg = items[1]
+        if str(op) not in ("MAX_REPEAT", "MIN_REPEAT"):
+            return set()
+        sub = list(arg[2])
+        out: Set[str] = set()
+        if len(sub) != 1:
+            return None
+        sop, sarg = sub[0]
+        if str(sop) == "LITERAL":
+            out.add(chr(sarg))
+        elif str(sop) == "IN":
+            for iop, iarg in sarg:
+                if str(iop) == "LITERAL":
+                    out.add(chr(iarg))
+                elif str(iop) == "RANGE":
+                    out |= {chr(c_) for c_ in range(iarg[0], iarg[1] + 1)}
+                elif str(iop) == "CATEGORY" and "SPACE" in str(iarg):
+                    out |= set(" \t\n\r\f\v")
+                else:
+                    return None
+        else:
+            return None
+        return out
+
+    admitted = blanks_after_hash(lm.rule("t_INCLUDE_DIRECTIVE").regex)
+    comp = ctx.repo.folder("parser", "CxxParser").get("_preprocessor_compress_re")
+    removed = blanks_after_hash(getattr(comp, "pattern", comp) if not isinstance(comp, str) else comp)
+    ctx.ob("R9.4", "parser:CxxParser._preprocessor_compress_re|covers the blanks the include rule admits after '#'", admitted is not None and removed is not None and admitted <= removed,
+           msg=f"the include rule admits {sorted(admitted or [])!r} between '#' and 'include', the handler only removes {sorted(removed or [])!r} there: '#\\tinclude <x.h>' is split at the tab and the file is reported as 'include <x.h>'",
+           node=pi, mod=mod, nontrivial=False)
+
     # ---------------------------------------------------------------- R9.5
     ctx.rule("R9.5", "carriage returns: input is CRLF-normalised before lexing, or no delivered token can end in / swallow a CR", minimum=1)
     li = lex.func("LexerTokenStream.__init__")
